@@ -6,12 +6,14 @@
 # /tmp/mt-out/<id>/summary.txt; copies patch/demo/meta to /verif/seeded/<id>/ when confirmed.
 set -u
 src="$1"; id="$2"; shift 2
+BASEID="$id"
 W="/tmp/mt-$id"; OUT="/tmp/mt-out/$id"
 rm -rf "$OUT"; mkdir -p "$OUT"
 export CARGO_NET_OFFLINE=true
 unset RUST_BACKTRACE
 git -C /repo worktree remove --force "$W" >/dev/null 2>&1
-git -C /repo worktree add -q --detach "$W" HEAD || exit 2
+base=HEAD; [ -f "/verif/seeded/$BASEID/base_commit" ] && base=$(cat "/verif/seeded/$BASEID/base_commit")
+git -C /repo worktree add -q --detach "$W" "$base" || exit 2
 cp /repo/Cargo.lock "$W/"
 feat=""
 grep -q "features serde\|--features=serde\|features \"serde\"" "$src/meta.json" && feat="--features serde"
